@@ -30,7 +30,7 @@ def parse_val(t):
 # `sw` = set of deviations of the code that are switched ON (empty = intended behaviour).
 
 SWITCHES = ["cursor-drops-absent-keys", "order-ignores-default", "bool-default-as-number", "null-param-never-matches",
-            "explicit-null-hides-default", "skip-without-first-fails", "same-key-shadows-parent"]
+            "explicit-null-hides-default", "skip-without-first-fails", "same-key-shadows-parent", "minmax-compare-text"]
 
 
 def num(v):
@@ -215,7 +215,7 @@ def canon_row(w, n, row):
 
 def canon_rows(w, n, rows):
     node = w.nodes[n]
-    visible = [o["name"] for o in node["orders"] if any(s[0] == "scalar" and s[1] == o["name"] for s in node["sels"])]
+    visible = [o["name"] for o in node["orders"] if any(s[0] in ("scalar", "agg") and s[1] == o["name"] for s in node["sels"])]
     items = []
     for r in rows:
         d = dict(r)
@@ -235,8 +235,61 @@ def root_key(w):
     return ("app$E%d" if w.ns else "E%d") % node["ent"]
 
 
+def json_text(v):
+    if v == NULL: return "null"
+    if v[0] == "I": return str(v[1])
+    if v[0] == "B": return "true" if v[1] else "false"
+    return '"' + v[1] + '"'
+
+
+def eval_groups(w, sw, my_key):
+    """count()/min()/max() grouped by the scalar selections of the root"""
+    node = w.nodes[0]
+    ent = node["ent"]
+    ok = [r for r in w.rows if r["ent"] == ent and all(filter_holds(w, sw, ent, r, f) for f in node["filters"])]
+    gfields = [s[2] for s in node["sels"] if s[0] == "scalar"]
+    groups = []
+    for r in ok:
+        key = [r["vals"].get(f, NULL) for f in gfields]
+        for g in groups:
+            if all(vsame(a, b) for a, b in zip(g[0], key)):
+                g[1].append(r); break
+        else:
+            groups.append((key, [r]))
+    if not gfields: groups = [([], ok)]     # no grouping field: exactly one group, even when no row is selected
+    rows = []
+    for key, g in groups:
+        row = []
+        for s in node["sels"]:
+            if s[0] == "scalar":
+                fd = w.fdef(ent, s[2])
+                row.append((s[1], selected(sw, fd, g[0]["vals"].get(s[2])) if fd and g else NULL))
+            elif s[0] == "agg":
+                _, k, fn, f = s
+                if fn == "count": row.append((k, ("I", len(g))))
+                else:
+                    vals = [r["vals"][f] for r in g if f in r["vals"]]
+                    if not vals: row.append((k, NULL)); continue
+                    if "minmax-compare-text" in sw: lt = lambda a, b: json_text(a) < json_text(b)
+                    else: lt = vlt
+                    best = vals[0]
+                    for v in vals[1:]:
+                        if (lt(v, best) if fn == "min" else lt(best, v)): best = v
+                    row.append((k, best))
+        rows.append(row)
+    orders = node["orders"]
+
+    def keys(row):
+        d = dict(row)
+        return [d.get(o["name"], NULL) for o in orders]
+    rows.sort(key=functools.cmp_to_key(lambda a, b: -1 if tuple_lt(orders, keys(a), keys(b)) else (1 if tuple_lt(orders, keys(b), keys(a)) else 0)))
+    return rows
+
+
 def run_query(w, sw):
     if 0 not in w.nodes: return None
+    if any(s[0] == "agg" for s in w.nodes[0]["sels"]):
+        return "res=[" + ",".join(canon_rows(w, 0, eval_groups(w, sw, root_key(w)))) + "]"
     if refused(w, sw, 0, True): return "err:sql"
     rows = eval_rows(w, sw, root_key(w), 0, w.rows, True)
     return "res=[" + ",".join(canon_rows(w, 0, [project(w, sw, root_key(w), 0, r) for r in rows])) + "]"
@@ -277,6 +330,7 @@ def apply_op(w, k, a):
             nd = w.nodes[int(a["n"])]
             nd["sels"].append(("id", a["key"]) if a["f"] == "id" else ("scalar", a["key"], int(a["f"])))
         elif k == "qe": w.nodes[int(a["n"])]["sels"].append(("sub", a["key"], int(a["f"]), int(a["child"])))
+        elif k == "qg": w.nodes[int(a["n"])]["sels"].append(("agg", a["key"], a["fn"], int(a["f"])))
         elif k == "qf":
             w.nodes[int(a["n"])]["filters"].append({"name": a["name"], "sel": a["sel"] == "1", "f": int(a["f"]), "op": a["op"],
                                                    "v": parse_val(a["v"]), "var": a.get("var") == "1"})
@@ -300,6 +354,7 @@ SIGNATURE_OF = {
     "explicit-null-hides-default": "explicit-null-hides-default",
     "skip-without-first-fails": "skip-without-first-refused",
     "same-key-shadows-parent": "nested-same-key-shadowing",
+    "minmax-compare-text": "aggregate-minmax-compare-text",
 }
 
 
@@ -334,14 +389,15 @@ class C05(Cfg):
         "Counter-examples (decide-checked) for ties, for absent keys and for a sub-selection that has the same key as its parent. "
         "The statement `the SQL compiler implements eval` is NOT proved (it would need a formal semantics of SQLite): it is decided by the differential run of every check: generated data models "
         "(namespaces, Integer/String/Boolean fields required/nullable/with default/added in a later model version, entity and array references incl. self references), data sets with ties and absent values on purpose, "
-        "and type-directed queries (aliases, nesting depth <= 3, filters on selected and unselected fields with literals and parameters, 1-3 order keys, first/skip, before/after, nullable(), id) are evaluated by the compiled Lean evaluator "
+        "and type-directed queries (aliases, nesting depth <= 3, filters on selected and unselected fields with literals and parameters, 1-3 order keys, first/skip, before/after, nullable(), id, count/min/max with grouping) are evaluated by the compiled Lean evaluator "
         "and by the real QueryParser + PreparedQueries + Query::read on SQLite; the JSON results are compared structurally (rows that tie on every visible order key as multisets). "
         "An independent second evaluator of the intended semantics (Python) is the oracle: every difference between it and the implementation must be explained by a listed deviation.")
     level_note = (
         "Proved about the evaluator only; the tie between evaluator and Rust code is differential (sampled), not a proof. "
         "Language subset covered: scalar selection (Integer, String, Boolean; required, nullable, default, late fields), id, aliases, entity/array sub-selections to depth 3, nullable(), "
-        "filters = != < <= > >= (literal, parameter, null) on fields and aliases with the default-aware rule, order_by (1-3 keys, asc/desc), first/skip, before/after. "
-        "NOT covered: Float/Base64/Json fields and json selectors, aggregates and having-filters, search(), filters on reference fields, room/author system fields, several root selections in one query, the service API (covered in C04). "
+        "filters = != < <= > >= (literal, parameter, null) on fields and aliases with the default-aware rule, order_by (1-3 keys, asc/desc), first/skip, before/after; "
+        "at the root also count()/min()/max() over required Integer fields grouped by 0-2 plain scalar fields, with a filter and order_by on group fields or aggregate aliases. "
+        "NOT covered: Float/Base64/Json fields and json selectors, avg()/sum() (floats), having-filters, limits/cursors on grouped queries, search(), filters on reference fields, room/author system fields, several root selections in one query, the service API (covered in C04). "
         "The paging theorem's hypothesis is that the order-key tuples of the selected rows are pairwise different (and present, for the code as it is); that the result is sorted is a theorem (C05_result_sorted).")
     trusted_base = [
         "hand-written evaluator lean/DiscretModel/Model/Query.lean, tied to the code by the differential run (dv-query vs dmodel_query)",
@@ -385,16 +441,17 @@ class C05(Cfg):
                     else:
                         for s in sigs: res.append((s, "intended %s got %s" % (want[:120], out[:120])))
             elif k == "pages":
-                if out.startswith("pages=") and out != "pages=*" and last_full is not None:
+                node = w.nodes.get(0, {})
+                if out.startswith("pages=") and out != "pages=*" and last_full is not None and node.get("orders"):
                     body = out[6:].split(" note=")[0]
                     got = ",".join(p for p in body.split("/") if p)
                     if "res=[" + got + "]" != last_full:
-                        node = w.nodes.get(0, {})
-                        absent = any(("%s=N" % o["name"]) in last_full for o in node.get("orders", []))
+                        absent = any(("%s=N" % o["name"]) in last_full for o in node["orders"])
+                        defaulted = any((not o["sel"]) and (w.fdef(node["ent"], o["f"]) or {}).get("dflt") is not None for o in node["orders"])
                         sig = "paging-absent-key-skipped" if absent else "paging-broken"
+                        if defaulted: sig = "order-ignores-default"      # rows that lack the field are ordered and paged as absent
                         if "note=err:pagingtype" in out: sig = "bool-default-returned-as-number"
-                        res.append((sig,
-                                    "pages %s do not add up to %s" % (out[:120], last_full[:120])))
+                        res.append((sig, "pages %s do not add up to %s" % (out[:120], last_full[:120])))
             else:
                 apply_op(w, k, a)
         seen, uniq = set(), []
